@@ -152,7 +152,7 @@ func (e *Env) tokenSentinels(v *spec.Version, ms []*decodeOneModel) {
 
 const decodeTrusted = "library semantics of strings.Split and == on strings"
 
-var languageRules = []string{"decode-rejections", "validity-rejections", "group-emptiness", "struct-layout", "decode-one", "token-split", "vector-split", "token-shape", "level-names", "arm-parser", "arm-value", "duplicate-test", "duplicate-mark", "accept-path", "arm-writes", "reject-path", "no-normalisation", "delegation-first", "token-loop", "deferred-error", "completeness-gate", "result-exclusive", "validity-coverage", "nil-receiver-decode", "code-table", "parse", "decoder-analysis", "decode-skeleton"}
+var languageRules = []string{"decode-rejections", "validity-rejections", "group-emptiness", "struct-layout", "decode-one", "token-split", "vector-split", "token-shape", "level-names", "arm-parser", "arm-value", "duplicate-test", "duplicate-mark", "accept-path", "arm-writes", "reject-path", "no-normalisation", "delegation-first", "token-loop", "deferred-error", "completeness-gate", "result-exclusive", "validity-coverage", "nil-receiver-decode", "code-table", "parse", "decoder-analysis", "decode-skeleton", "constructor-default"}
 
 func c07(e *Env) {
 	c := e.C
@@ -164,6 +164,9 @@ func c07(e *Env) {
 		for _, fv := range l.Metrics {
 			e.metricTables(l, fv, spec.V3.Metric(fv.Name()))
 		}
+		// "all eight base metrics are present" is tested as "no base field still holds its unknown value": that is
+		// presence only if the constructor starts every base field at that value (and the optional ones at Not Defined)
+		e.constructorDefaults(l, "constructor-default")
 	}
 	e.versionTables()
 	e.keepRules(append(languageRules, "version-prefix", "version-table")...)
@@ -192,6 +195,9 @@ func c08(e *Env) {
 			e.metricTables(l, fv, spec.V2.Metric(fv.Name()))
 		}
 		e.encodeRules(l)
+		// a complete group is tested as "no field of the group still holds its invalid value": complete only if the
+		// constructor starts every field there
+		e.constructorDefaults(l, "constructor-default")
 	}
 	e.keepRules(append(languageRules, "canonical-order", "encode-order", "encode-emission", "encode-guard", "encode-emissions", "encode-error")...)
 	c.Floor("level-names", 3)
@@ -289,7 +295,7 @@ func c11(e *Env) {
 		}
 	}
 	e.sentinelProvenance()
-	e.keepRules("parse", "token-split-kind", "sentinel-pairing", "deferred-error", "reject-path", "sentinel-provenance", "sentinel-distinct", "version-prefix", "duplicate-test", "token-shape", "decode-one", "decoder-analysis", "table-immutability")
+	e.keepRules("parse", "token-split-kind", "sentinel-pairing", "deferred-error", "reject-path", "sentinel-provenance", "sentinel-distinct", "version-prefix", "duplicate-test", "token-shape", "decode-one", "decoder-analysis", "table-immutability", "group-emptiness")
 	c.Floor("sentinel-pairing", 90)
 	c.Floor("deferred-error", 6)
 	c.Floor("sentinel-provenance", 25)
@@ -1022,7 +1028,10 @@ func c14(e *Env) {
 			})
 		}
 	}
-	e.keepRules("struct-layout", "embedding", "accessor-identity", "delegation-first", "write-ownership", "version-recorded", "constructor-fresh", "lower-through-embedding")
+	// "equal those of a base decoder applied to the vector's base metrics alone" compares two decodes: each must be
+	// a function of the text (no map-order dependent look-up)
+	e.determinism("determinism", false)
+	e.keepRules("struct-layout", "embedding", "accessor-identity", "delegation-first", "write-ownership", "version-recorded", "constructor-fresh", "lower-through-embedding", "determinism")
 	c.Floor("lower-through-embedding", 20)
 	c.Floor("embedding", 4)
 	c.Floor("accessor-identity", 7)
